@@ -12,7 +12,11 @@ from .extract import AnalysisBroken
 from .facts import FactBase
 
 MODULES = {
-    "C12": "c12",
+    "C01": ("lockstep", "run_c01"),
+    "C02": ("lockstep", "run_c02"),
+    "C03": ("lockstep", "run_c03"),
+    "C12": ("c12", "run"),
+    "C17": ("lockstep", "run_c17"),
 }
 
 
@@ -35,8 +39,8 @@ def main():
         raw, rawd, info = extract.ensure(a.tier)
         fb, fbd = FactBase(raw), FactBase(rawd)
         ck.analysed["extraction"] = info
-        mod = importlib.import_module("ovmverif." + MODULES[a.pid])
-        mod.run(ck, fb, fbd)
+        mod = importlib.import_module("ovmverif." + MODULES[a.pid][0])
+        getattr(mod, MODULES[a.pid][1])(ck, fb, fbd)
         rc = ck.finish()
         if a.replay and rc:
             for o in ck.oblig:
